@@ -89,7 +89,10 @@ type Rule struct {
 	MultiMatch bool     `json:"multimatch,omitempty"`
 	Capture    bool     `json:"capture,omitempty"`
 	// Disruptive: "", "deny", "drop", "redirect", "block", "pass", "allow", "allow:phase", "allow:request"
-	Disruptive string   `json:"disruptive,omitempty"`
+	Disruptive string `json:"disruptive,omitempty"`
+	// Overridden: a disruptive action written earlier in the same action list; only the last disruptive action of
+	// a list takes effect, so it changes nothing (and must not lend its argument to the one that replaces it)
+	Overridden string   `json:"overridden,omitempty"`
 	Status     int      `json:"status,omitempty"`
 	StatusLast bool     `json:"status_last,omitempty"` // render status: after the disruptive action instead of before it
 	Redirect   string   `json:"redirect,omitempty"`
@@ -180,6 +183,9 @@ func (r *Rule) actions(isLink bool) string {
 	}
 	if r.Status != 0 && !r.StatusLast {
 		a = append(a, "status:"+strconv.Itoa(r.Status))
+	}
+	if r.Overridden != "" && r.Disruptive != "" {
+		a = append(a, r.Overridden)
 	}
 	switch r.Disruptive {
 	case "":
